@@ -1,0 +1,70 @@
+// Copyright 2009 Intel Corporation
+// SPDX-License-Identifier: Apache-2.0
+
+#pragma once
+
+// Scheduling points for verification harnesses. This header is included (and
+// the RKCOMMON_VERIF_* macros expand to anything) only when RKCOMMON_VERIF is
+// defined; regular builds are not affected.
+//
+// A point is an indirect call through a function pointer that is null unless
+// a harness installs a controller, which may park the calling thread there
+// until its schedule grants that (thread, point) pair.
+
+#include <atomic>
+
+namespace rkcommon {
+  namespace verif {
+
+    using point_fn = void (*)(const char *name, int value);
+
+    inline std::atomic<point_fn> &controller()
+    {
+      static std::atomic<point_fn> fn{nullptr};
+      return fn;
+    }
+
+    inline void point(const char *name, int value = -1)
+    {
+      point_fn fn = controller().load();
+      if (fn)
+        fn(name, value);
+    }
+
+    // point reached after a boolean has been computed; reports the value
+    inline bool value(const char *name, bool v)
+    {
+      point(name, v ? 1 : 0);
+      return v;
+    }
+
+    // point reached when the enclosing scope is left (return, end of block)
+    struct scope_point
+    {
+      explicit scope_point(const char *n) : name(n) {}
+      ~scope_point()
+      {
+        point(name);
+      }
+      scope_point(const scope_point &) = delete;
+      scope_point &operator=(const scope_point &) = delete;
+      const char *name;
+    };
+
+  }  // namespace verif
+}  // namespace rkcommon
+
+#define RKCOMMON_VERIF_CAT2(a, b) a##b
+#define RKCOMMON_VERIF_CAT(a, b) RKCOMMON_VERIF_CAT2(a, b)
+// statement position; used WITHOUT a trailing semicolon
+#define RKCOMMON_VERIF_POINT(name) ::rkcommon::verif::point(name);
+#define RKCOMMON_VERIF_SCOPE(name)                                             \
+  ::rkcommon::verif::scope_point RKCOMMON_VERIF_CAT(rkcommonVerifScope,        \
+                                                    __LINE__)(name);
+// around a `return <bool expression>;` statement (which stays as it is):
+// reports the value the statement computed before returning it
+#define RKCOMMON_VERIF_VALUE_BEGIN(name)                                       \
+  return ::rkcommon::verif::value(name, [&]() -> bool {
+#define RKCOMMON_VERIF_VALUE_END }());
+// inside a boolean expression, between two operands of ||
+#define RKCOMMON_VERIF_THEN(name) (::rkcommon::verif::point(name), false) ||
